@@ -31,7 +31,13 @@ type C07Plan struct {
 	// Delivery (forbidden kind): "" = in order; "skipParent" = the bad node leaves out the header just before the forbidden
 	// one in its reply, "beforeParent" = it sends the forbidden header ahead of its parent: either way the forbidden header
 	// arrives while its parent is unknown to the service
-	Delivery string `json:"delivery,omitempty"`
+	// LightSide (checkpoint kind): the bad branch is much lighter than the honest chain and is delivered after the honest
+	// headers below the checkpoint, so the contradicting header is STALE when it is stored
+	LightSide bool `json:"lightSide,omitempty"`
+	// StrictRedelivery (reproducer of an open finding only): a connection on which the contradicting header is delivered
+	// AGAIN (the service has it already) is expected to be closed as well
+	StrictRedelivery bool   `json:"strictRedelivery,omitempty"`
+	Delivery         string `json:"delivery,omitempty"`
 	// NoConvergence (checkpoint kind, generator only): the plan's convergence needs the sync-peer rotation timer; only the
 	// containment oracles are applied
 	NoConvergence bool            `json:"noConvergence,omitempty"`
@@ -93,7 +99,11 @@ func runC07Once(p *C07Plan, long bool) (*stats.Case, error) {
 	if forkAt >= p.HonestLen {
 		forkAt = p.HonestLen - 1
 	}
-	bad := u.Extend(append([]*simnet.Block{}, honest[:forkAt]...), p.BadLen, 7, 0x1d00ffff)
+	badBits := uint32(0x1d00ffff)
+	if p.LightSide {
+		badBits = 0x1e00ffff // every block of the bad branch has 1/256 of the work of an honest block
+	}
+	bad := u.Extend(append([]*simnet.Block{}, honest[:forkAt]...), p.BadLen, 7, badBits)
 	var cps []chaincfg.Checkpoint
 	for _, h := range p.Checkpoints {
 		if h >= 1 && h <= len(honest) {
@@ -154,6 +164,9 @@ func runC07Once(p *C07Plan, long bool) (*stats.Case, error) {
 		return nil, fmt.Errorf("infra: %w", err)
 	}
 	badNode.Offending = offending
+	// a forbidden header is rejected on every delivery (it is never stored); a checkpoint-contradicting header that is
+	// delivered again is skipped as a duplicate by both engines (open finding C07-checkpoint-contradiction-redelivered)
+	badNode.RedeliveryCounts = p.Kind == "forbidden" || p.StrictRedelivery
 	if p.Kind == "forbidden" && p.Delivery != "" {
 		fh := forbidden.Hash
 		badNode.Insert = func(reply []*wire.BlockHeader, _ int, _ int) ([]*wire.BlockHeader, bool) {
@@ -167,6 +180,32 @@ func runC07Once(p *C07Plan, long bool) (*stats.Case, error) {
 					}
 					stats.Count("forbidden_delivered_before_its_parent", 1)
 					return out, true
+				}
+			}
+			return reply, false
+		}
+	}
+	if p.Kind == "checkpoint" && p.LightSide && forkAt < len(bad) {
+		// the reply that starts the bad branch first carries the honest headers from the fork point up to just below the
+		// contradicted checkpoint: the bad branch (lighter) is then stored as STALE, and the header that contradicts the
+		// checkpoint arrives as a STALE header at the checkpoint height
+		first := bad[forkAt].Hash
+		upTo := 0
+		for _, c := range cps {
+			if int(c.Height) > forkAt && int(c.Height) <= len(bad) && upTo == 0 {
+				upTo = int(c.Height) - 1
+			}
+		}
+		badNode.Insert = func(reply []*wire.BlockHeader, _ int, _ int) ([]*wire.BlockHeader, bool) {
+			for i, h := range reply {
+				if h.BlockHash() == first && upTo > forkAt {
+					out := append([]*wire.BlockHeader{}, reply[:i]...)
+					for _, hb := range honest[forkAt:upTo] {
+						out = append(out, hb.H)
+					}
+					out = append(out, reply[i:]...)
+					stats.Count("contradiction_delivered_on_a_stale_side_branch", 1)
+					return out, false
 				}
 			}
 			return reply, false
@@ -368,7 +407,7 @@ func runC07Once(p *C07Plan, long bool) (*stats.Case, error) {
 			}
 		}
 	}
-	cl := map[string]int64{"scenarios": 1, "kind_" + p.Kind: 1, "engine_" + p.Engine: 1, "offence_observed": b2i(sawOffence), "ban_window_checked": b2i(banChecked),
+	cl := map[string]int64{"scenarios": 1, "kind_" + p.Kind: 1, "engine_" + p.Engine: 1, "offence_observed": b2i(sawOffence), "contradiction_redelivered_and_skipped_as_duplicate": int64(badNode.Redeliveries()), "ban_window_checked": b2i(banChecked),
 		"with_final_announcement": b2i(p.FinalAnn), "bad_first": b2i(p.BadFirst)}
 	nt := sawOffence && (p.Offset > 0 || p.Kind == "checkpoint") && p.Honest >= 1
 	return &stats.Case{Sig: stats.Sig(fmt.Sprintf("%+v", *p)), Nontrivial: nt, Classes: cl, Sample: p}, nil
@@ -453,6 +492,14 @@ func genC07(t *rapid.T) *C07Plan {
 				p.VariantB = true
 			}
 		}
+		if p.Engine == "legacy" && !p.VariantB && c-p.ForkAt >= 2 && rapid.IntRange(0, 2).Draw(t, "lightside") == 0 {
+			p.LightSide = true
+			p.BadCap = 2000
+			// containment only: afterwards another connection of the bad node is picked as sync peer, claims a height the
+			// service never reaches (its light branch stays STALE) and answers with known headers only - the manager moves
+			// on by its sync-peer rotation, not within this check's bound
+			p.NoConvergence = true
+		}
 		// the honest chain stays strictly heavier than the bad branch (equal work would leave the first-seen branch as tip)
 		if over := p.ForkAt + p.BadLen - (p.HonestLen - 1); over > 0 {
 			p.BadLen -= over
@@ -468,6 +515,9 @@ func c07Known(p *C07Plan, err error) string {
 		return ""
 	}
 	msg := err.Error()
+	if p.StrictRedelivery && strings.Contains(msg, "was not disconnected") {
+		return "C07-checkpoint-contradiction-redelivered"
+	}
 	if !p.BadFirst && strings.Contains(msg, "was not disconnected") {
 		return "C07-checkpoint-contradiction-after-checkpoint-passed"
 	}
